@@ -751,6 +751,59 @@ def run_ext_entry_case(ei, hi, ctor=False):
     return out["extensions"][_ED] == EXT_ENTRIES[ei]
 
 
+# ---------------------------------------------------------------- f''. 2.0 object references are checked against the container they end up in
+REF_TYPES = {"contains_refs": ("file", "directory"), "parent_directory_ref": ("directory",), "src_ref": ("ipv4-addr", "ipv6-addr", "mac-addr", "domain-name"),
+             "dst_ref": ("ipv4-addr", "ipv6-addr", "mac-addr", "domain-name"), "resolves_to_refs": ("ipv4-addr", "ipv6-addr", "domain-name")}
+# selections {new key: key in the source container}
+SELECTIONS = [{"0": "0", "1": "1"}, {"5": "1"}, {"0": "3", "1": "1"}, {"0": "0", "1": "1", "2": "2", "3": "3"}, {"2": "2", "3": "0"}, {"2": "2"}, {"0": "4", "4": "0"}]
+
+
+def _source_container():
+    return stix2.v20.ObservedData(first_observed=gen.TS, last_observed=gen.TS, number_observed=1, objects={
+        "0": {"type": "file", "name": "f"}, "1": {"type": "directory", "path": "p", "contains_refs": ["0"]},
+        "2": {"type": "network-traffic", "protocols": ["tcp"], "src_ref": "3"}, "3": {"type": "ipv4-addr", "value": "1.2.3.4"},
+        "4": {"type": "file", "name": "g", "parent_directory_ref": "1"}})
+
+
+def observable_instances(si: int, route: int) -> bool:
+    """
+    pre: 0 <= si < len(SELECTIONS) and 0 <= route < 3
+    post: _
+    """
+    si, route = pick(si, len(SELECTIONS)), pick(route, 3)
+    with Native():
+        ok = run_instances_case(si, route)
+    V.reached()
+    return ok
+
+
+def _refs_resolve(objects):
+    for key, o in objects.items():
+        for prop, allowed in REF_TYPES.items():
+            if prop in o:
+                for r in (o[prop] if isinstance(o[prop], list) else [o[prop]]):
+                    if r not in objects or objects[r].get("type") not in allowed:
+                        return False
+    return True
+
+
+def run_instances_case(si, route):
+    """members given as ready-made observable instances (parsed in ANOTHER container) are checked against THIS container's keys and types"""
+    src = _source_container()
+    sel = SELECTIONS[si]
+    members = {k: (src.objects[v] if route != 2 else json.loads(src.objects[v].serialize())) for k, v in sel.items()}
+    expected_ok = _refs_resolve({k: json.loads(src.objects[v].serialize()) for k, v in sel.items()})
+    try:
+        if route == 1:
+            o = src.new_version(objects=members)
+        else:
+            o = stix2.v20.ObservedData(first_observed=gen.TS, last_observed=gen.TS, number_observed=1, objects=members)
+    except (STIXError, ValueError, TypeError):
+        return not expected_ok
+    out = json.loads(o.serialize())
+    return expected_ok and _refs_resolve(out["objects"])
+
+
 # ---------------------------------------------------------------- c'. presence-only co-constraints, table driven (symbolic presence flags)
 def _x509_21_list():
     return ['is_self_signed', 'hashes', 'version', 'serial_number', 'signature_algorithm', 'issuer']
